@@ -267,6 +267,8 @@ package hermes
 //@   ensures[C01] bottom: g.SICKER + g.CAPSUM == old(g.SICKER) + old(g.CAPSUM) + g.Q1[g.OUTN]*10 - l.GWAUF*10*wdt
 //@   ensures[C01] uptake: forall(k, 0, g.N, g.TP[k] == ite(subd == 1, clampTP(k), old(g.TP[k])))
 //@   ensures[C01] surface: unchanged(g.FLUSS0, l.GWAUF)
+// the reported actual evaporation is the evaporation the surface flux was reduced by, for EVERY sub-step (step length wdt)
+//@   ensures[C01] evapsum: g.PFTRANS == old(g.PFTRANS) + sum(k, 0, g.N, 21, g.TP[k]*wdt) + old(g.ETA)*wdt
 //@   ensures[C01,C02] drainonly: g.QDRAIN > 0 ==> g.FLUSS0 > 0
 //@   ensures[C01] draininside: g.QDRAIN >= 0 && (g.QDRAIN == 0 || (1 <= g.DRAIDEP && g.DRAIDEP <= g.N))
 //@   ensures[C01] startcopy: forall(k, 0, g.N, g.WG[0][k] == start(k))
@@ -339,6 +341,7 @@ package hermes
 //@ loop Water#11
 //@   invariant range: 1 <= \i && \i <= g.N+1
 //@   invariant conv: forall(j, 0, \i-1, g.WG[1][j]*g.DZ.Num == WATER[1][j])
+//@   invariant[C01] et: g.PFTRANS == old(g.PFTRANS) + sum(k, 0, \i-1, 21, g.TP[k]*wdt)
 //@   invariant bal: forall(k, 0, g.N, bal(k))
 //@   invariant[C06] low: forall(k, 0, g.N, lowb(k))
 //@   invariant[C06] up: forall(k, 0, g.N, capped(k))
@@ -381,6 +384,9 @@ package hermes
 //@   ensures[C08] rootzone: forall(i, 0, g.N, real(i+1) > rz() ==> g.TP[i] == 0)
 //@   ensures[C08] uptakesign: forall(i, 0, g.N, g.TP[i] >= 0)
 //@   ensures[C08] gwsupply: l.GWAUF >= 0
+// C01: the groundwater supply Water books against the lower boundary is the FINAL uptake of the layer that holds the table
+// (after the deficit of the layers above has been passed down to it), zero when no rooted layer holds the table
+//@   ensures[C01] gwlayer: cropped() ==> forall(i, 0, g.N, real(i+1) == g.GRW && i+1 <= tdiv(floor(rz()), 1) ==> l.GWAUF == g.TP[i])
 //@   ensures[C08] etrel: 0 <= g.ETREL && g.ETREL <= 1
 //@   ensures[C08] trrel: 0 <= g.TRREL
 //@   ensures[C08] lured: cropped() ==> 0 <= g.LURED && g.LURED <= 1
@@ -418,8 +424,10 @@ package hermes
 //@   invariant[C08] zero: forall(j, 0, g.N, real(j+1) > rz() ==> g.TP[j] == 0)
 //@   invariant[C08] sign: forall(j, 0, g.N, g.TP[j] >= 0)
 //@   invariant[C08] acc: TPAKT >= 0 && l.GWAUF >= 0
+//@   invariant[C01] gwdone: forall(j, 0, \i-1, real(j+1) == g.GRW ==> l.GWAUF == g.TP[j])
 //@ loop Evatra#9
 //@   invariant range: i+1 <= \i && \i <= g.N+1
+//@   invariant[C01] frame: forall(j, 0, i, g.TP[j] == pre(g.TP[j])) && l.GWAUF == pre(l.GWAUF)
 //@   invariant[C08] zero: forall(j, 0, g.N, real(j+1) > rz() ==> g.TP[j] == 0)
 //@   invariant[C08] sign: forall(j, 0, g.N, g.TP[j] >= 0)
 //@ loop Evatra#10
@@ -991,6 +999,11 @@ package hermes
 // reaches the soil solution through dissolution in `mineral`), never directly into the mineral N of a layer
 //@   serves C02
 //@   ensures[C10,C02] autopool: g.AUTOFERT ==> unchanged(g.C1)
+// an organic fertiliser tied to the harvest of the PREVIOUS rotation entry is applied on its day whatever the state of the
+// current entry (also after the last harvest of the rotation, when no further crop is sown)
+//@   define hdue() = g.AUTOFERT && subd == 1 && old(g.AKF.Num) > 1 && old(g.ODU[g.AKF.Index-1]) == 1 && old(g.ORGTIME[g.AKF.Index-1]) == "H" && zeit == old(g.ZTDG[g.AKF.Index-1])
+//@   requires[C10] amounts: forall(k, 0, 300, g.NSAS[k] >= 0 && g.NLAS[k] >= 0 && g.NDIR[k] >= 0)
+//@   ensures[C10] harvestorganic: hdue() && isnil(runErr) ==> g.NFOS[0] >= old(g.NFOS[0]) + old(g.NSAS[g.AKF.Index-1]) && g.NAOS[0] >= old(g.NAOS[0]) + old(g.NLAS[g.AKF.Index-1]) && g.DSUMM >= old(g.DSUMM) + old(g.NDIR[g.AKF.Index-1])
 //@   ensures[C16,C07] autononneg: g.AUTOFERT && (forall(k, 0, 300, g.NDIR[k] >= 0)) ==> g.DSUMM >= old(g.DSUMM) && g.NFERTSIM >= old(g.NFERTSIM)
 
 // tillage of the day: when due the pools are mixed evenly down to the tillage depth, which preserves their sums
@@ -1838,6 +1851,8 @@ package hermes
 // C09  root radius of every rooted layer is positive (the root length density divides by its square)
 //@ region PhytoOut#rootradius from "WRAD := make([]float64, g.WURZ)" before "rFreshWeight := make([]float64, g.WURZ)"
 //@   serves C09
+// (a zero radius makes the root length density infinite and the uptake of that layer NaN, which Water cannot limit: C06)
+//@   serves C06
 //@   unroll-loops 41
 //@   requires roots: 0 <= g.WURZ && g.WURZ <= 40 && 0 <= g.AKF.Index && g.AKF.Index < 300
 //@   ensures positive: forall(j, 0, g.WURZ, WRAD[j] > 0)
@@ -2339,3 +2354,23 @@ package hermes
 //@   ghost var advanced bool = false
 //@   after call NextLineInut: ghost advanced = true
 //@   exit-ensures progress: advanced
+
+// C07  harvest residues: what the residue helper hands to the organic pools (fast and slow shares of shoot and root
+// residues) is never negative, whatever the crop state (a perennial cut below the stubble mass has NO shoot residue) -
+// for a fast-decomposing share of the residue table between 0 and 1
+//@ func resid
+//@   serves C07
+//@   opaque ValAsFloat GlobalVarsMain.ToCropType HermesSession.Open
+//@   ghost var fast real
+//@   before stmt "NSA = DGM * NFAST": ghost fast = NFAST
+//@   ensures nonneg: 0 <= fast && fast <= 1 ==> NSA >= 0 && NLA >= 0 && NUSA >= 0 && NULA >= 0 && NRESID >= 0 && NDI == 0
+
+// C16  crop codes outside the built-in list: a code seen for the first time in a run gets the next free id AFTER the ids
+// already given out in this run (so two user-defined crops of one rotation never share an id), and is remembered
+//@ func GlobalVarsMain.ToCropType
+//@   serves C16
+//@   ghost var key string
+//@   before stmt "newCropType := numSysCrops": ghost key = trimSpaces
+//@   before stmt "newCropType := numSysCrops": assert unknown: !indom(g.CropTypeLookup, trimSpaces)
+//@   after stmt "newCropType := numSysCrops": assert[C16] nextfree: newCropType == numSysCrops + len(g.CropTypeLookup) + 1
+//@   after stmt "g.CropTypeLookup[trimSpaces] = newCropType": assert[C16] remembered: g.CropTypeLookup[key] == newCropType && indom(g.CropTypeLookup, key)
